@@ -26,6 +26,22 @@ Proof.
   match goal with |- context [if ?b then _ else _] => destruct b end;
   match goal with |- context [cos ?t] => pose proof (Cexpi_n2 t) as H; unfold n2, Cexpi in *; simpl in * end; nra.
 Qed.
+Lemma nbl_pix_0_0 k dx lam z : (nbl_re_0_0 k dx lam z, nbl_im_0_0 k dx lam z) = Cmult (RtoC (mask01 (nbl_mask_0_0 k dx lam z))) (Cexpi (nbl_ph_0_0 k dx lam z)).
+Proof.
+  unfold nbl_re_0_0, nbl_im_0_0, nbl_mask_0_0, nbl_ph_0_0, mask01, Cmult, Cexpi, RtoC; cbn [fst snd].
+  match goal with |- context [if ?b then _ else _] => destruct b end; f_equal; ring.
+Qed.
+Lemma nbl_mask_even_0_0 k dx lam z : nbl_mask_0_0 k dx lam (- z) = nbl_mask_0_0 k dx lam z.
+Proof. unfold nbl_mask_0_0. sqrt_canon. reflexivity. Qed.
+Lemma nbl_laws_0_0 k dx lam z1 z2 :
+  nbl_mask_0_0 k dx lam z1 = true -> nbl_mask_0_0 k dx lam z2 = true -> nbl_mask_0_0 k dx lam (z1 + z2) = true ->
+   Cmult (nbl_re_0_0 k dx lam z1, nbl_im_0_0 k dx lam z1) (nbl_re_0_0 k dx lam z2, nbl_im_0_0 k dx lam z2) = (nbl_re_0_0 k dx lam (z1 + z2), nbl_im_0_0 k dx lam (z1 + z2)).
+Proof.
+  rewrite !nbl_pix_0_0. intros H1 H2 H3. rewrite H1, H2, H3. unfold mask01.
+  replace (Cmult (Cmult (RtoC 1) (Cexpi (nbl_ph_0_0 k dx lam z1))) (Cmult (RtoC 1) (Cexpi (nbl_ph_0_0 k dx lam z2))))
+    with (Cmult (RtoC 1) (Cmult (Cexpi (nbl_ph_0_0 k dx lam z1)) (Cexpi (nbl_ph_0_0 k dx lam z2)))) by ring.
+  f_equal. apply (kernel_compose (nbl_ph_0_0 k dx lam)), nbl_add_0_0.
+Qed.
 Lemma nbl_radnn_0_1 k dx lam z : 0 < lam -> 0 < dx -> lam * lam <= 2 * (dx * dx) -> 0 <= nbl_rad_0_1 k dx lam z.
 Proof.
   intros Hl Hd Hg. replace (nbl_rad_0_1 k dx lam z) with (1 - (lam * ((- (1 / 6)) / dx)) ^ 2 - (lam * ((- (1 / 2)) / dx)) ^ 2) by (unfold nbl_rad_0_1; field; lra).
@@ -38,6 +54,22 @@ Proof.
   unfold nbl_re_0_1, nbl_im_0_1.
   match goal with |- context [if ?b then _ else _] => destruct b end;
   match goal with |- context [cos ?t] => pose proof (Cexpi_n2 t) as H; unfold n2, Cexpi in *; simpl in * end; nra.
+Qed.
+Lemma nbl_pix_0_1 k dx lam z : (nbl_re_0_1 k dx lam z, nbl_im_0_1 k dx lam z) = Cmult (RtoC (mask01 (nbl_mask_0_1 k dx lam z))) (Cexpi (nbl_ph_0_1 k dx lam z)).
+Proof.
+  unfold nbl_re_0_1, nbl_im_0_1, nbl_mask_0_1, nbl_ph_0_1, mask01, Cmult, Cexpi, RtoC; cbn [fst snd].
+  match goal with |- context [if ?b then _ else _] => destruct b end; f_equal; ring.
+Qed.
+Lemma nbl_mask_even_0_1 k dx lam z : nbl_mask_0_1 k dx lam (- z) = nbl_mask_0_1 k dx lam z.
+Proof. unfold nbl_mask_0_1. sqrt_canon. reflexivity. Qed.
+Lemma nbl_laws_0_1 k dx lam z1 z2 :
+  nbl_mask_0_1 k dx lam z1 = true -> nbl_mask_0_1 k dx lam z2 = true -> nbl_mask_0_1 k dx lam (z1 + z2) = true ->
+   Cmult (nbl_re_0_1 k dx lam z1, nbl_im_0_1 k dx lam z1) (nbl_re_0_1 k dx lam z2, nbl_im_0_1 k dx lam z2) = (nbl_re_0_1 k dx lam (z1 + z2), nbl_im_0_1 k dx lam (z1 + z2)).
+Proof.
+  rewrite !nbl_pix_0_1. intros H1 H2 H3. rewrite H1, H2, H3. unfold mask01.
+  replace (Cmult (Cmult (RtoC 1) (Cexpi (nbl_ph_0_1 k dx lam z1))) (Cmult (RtoC 1) (Cexpi (nbl_ph_0_1 k dx lam z2))))
+    with (Cmult (RtoC 1) (Cmult (Cexpi (nbl_ph_0_1 k dx lam z1)) (Cexpi (nbl_ph_0_1 k dx lam z2)))) by ring.
+  f_equal. apply (kernel_compose (nbl_ph_0_1 k dx lam)), nbl_add_0_1.
 Qed.
 Lemma nbl_radnn_0_2 k dx lam z : 0 < lam -> 0 < dx -> lam * lam <= 2 * (dx * dx) -> 0 <= nbl_rad_0_2 k dx lam z.
 Proof.
@@ -52,6 +84,22 @@ Proof.
   match goal with |- context [if ?b then _ else _] => destruct b end;
   match goal with |- context [cos ?t] => pose proof (Cexpi_n2 t) as H; unfold n2, Cexpi in *; simpl in * end; nra.
 Qed.
+Lemma nbl_pix_0_2 k dx lam z : (nbl_re_0_2 k dx lam z, nbl_im_0_2 k dx lam z) = Cmult (RtoC (mask01 (nbl_mask_0_2 k dx lam z))) (Cexpi (nbl_ph_0_2 k dx lam z)).
+Proof.
+  unfold nbl_re_0_2, nbl_im_0_2, nbl_mask_0_2, nbl_ph_0_2, mask01, Cmult, Cexpi, RtoC; cbn [fst snd].
+  match goal with |- context [if ?b then _ else _] => destruct b end; f_equal; ring.
+Qed.
+Lemma nbl_mask_even_0_2 k dx lam z : nbl_mask_0_2 k dx lam (- z) = nbl_mask_0_2 k dx lam z.
+Proof. unfold nbl_mask_0_2. sqrt_canon. reflexivity. Qed.
+Lemma nbl_laws_0_2 k dx lam z1 z2 :
+  nbl_mask_0_2 k dx lam z1 = true -> nbl_mask_0_2 k dx lam z2 = true -> nbl_mask_0_2 k dx lam (z1 + z2) = true ->
+   Cmult (nbl_re_0_2 k dx lam z1, nbl_im_0_2 k dx lam z1) (nbl_re_0_2 k dx lam z2, nbl_im_0_2 k dx lam z2) = (nbl_re_0_2 k dx lam (z1 + z2), nbl_im_0_2 k dx lam (z1 + z2)).
+Proof.
+  rewrite !nbl_pix_0_2. intros H1 H2 H3. rewrite H1, H2, H3. unfold mask01.
+  replace (Cmult (Cmult (RtoC 1) (Cexpi (nbl_ph_0_2 k dx lam z1))) (Cmult (RtoC 1) (Cexpi (nbl_ph_0_2 k dx lam z2))))
+    with (Cmult (RtoC 1) (Cmult (Cexpi (nbl_ph_0_2 k dx lam z1)) (Cexpi (nbl_ph_0_2 k dx lam z2)))) by ring.
+  f_equal. apply (kernel_compose (nbl_ph_0_2 k dx lam)), nbl_add_0_2.
+Qed.
 Lemma nbl_radnn_0_3 k dx lam z : 0 < lam -> 0 < dx -> lam * lam <= 2 * (dx * dx) -> 0 <= nbl_rad_0_3 k dx lam z.
 Proof.
   intros Hl Hd Hg. replace (nbl_rad_0_3 k dx lam z) with (1 - (lam * ((1 / 2) / dx)) ^ 2 - (lam * ((- (1 / 2)) / dx)) ^ 2) by (unfold nbl_rad_0_3; field; lra).
@@ -64,6 +112,22 @@ Proof.
   unfold nbl_re_0_3, nbl_im_0_3.
   match goal with |- context [if ?b then _ else _] => destruct b end;
   match goal with |- context [cos ?t] => pose proof (Cexpi_n2 t) as H; unfold n2, Cexpi in *; simpl in * end; nra.
+Qed.
+Lemma nbl_pix_0_3 k dx lam z : (nbl_re_0_3 k dx lam z, nbl_im_0_3 k dx lam z) = Cmult (RtoC (mask01 (nbl_mask_0_3 k dx lam z))) (Cexpi (nbl_ph_0_3 k dx lam z)).
+Proof.
+  unfold nbl_re_0_3, nbl_im_0_3, nbl_mask_0_3, nbl_ph_0_3, mask01, Cmult, Cexpi, RtoC; cbn [fst snd].
+  match goal with |- context [if ?b then _ else _] => destruct b end; f_equal; ring.
+Qed.
+Lemma nbl_mask_even_0_3 k dx lam z : nbl_mask_0_3 k dx lam (- z) = nbl_mask_0_3 k dx lam z.
+Proof. unfold nbl_mask_0_3. sqrt_canon. reflexivity. Qed.
+Lemma nbl_laws_0_3 k dx lam z1 z2 :
+  nbl_mask_0_3 k dx lam z1 = true -> nbl_mask_0_3 k dx lam z2 = true -> nbl_mask_0_3 k dx lam (z1 + z2) = true ->
+   Cmult (nbl_re_0_3 k dx lam z1, nbl_im_0_3 k dx lam z1) (nbl_re_0_3 k dx lam z2, nbl_im_0_3 k dx lam z2) = (nbl_re_0_3 k dx lam (z1 + z2), nbl_im_0_3 k dx lam (z1 + z2)).
+Proof.
+  rewrite !nbl_pix_0_3. intros H1 H2 H3. rewrite H1, H2, H3. unfold mask01.
+  replace (Cmult (Cmult (RtoC 1) (Cexpi (nbl_ph_0_3 k dx lam z1))) (Cmult (RtoC 1) (Cexpi (nbl_ph_0_3 k dx lam z2))))
+    with (Cmult (RtoC 1) (Cmult (Cexpi (nbl_ph_0_3 k dx lam z1)) (Cexpi (nbl_ph_0_3 k dx lam z2)))) by ring.
+  f_equal. apply (kernel_compose (nbl_ph_0_3 k dx lam)), nbl_add_0_3.
 Qed.
 Lemma nbl_radnn_1_0 k dx lam z : 0 < lam -> 0 < dx -> lam * lam <= 2 * (dx * dx) -> 0 <= nbl_rad_1_0 k dx lam z.
 Proof.
@@ -78,6 +142,22 @@ Proof.
   match goal with |- context [if ?b then _ else _] => destruct b end;
   match goal with |- context [cos ?t] => pose proof (Cexpi_n2 t) as H; unfold n2, Cexpi in *; simpl in * end; nra.
 Qed.
+Lemma nbl_pix_1_0 k dx lam z : (nbl_re_1_0 k dx lam z, nbl_im_1_0 k dx lam z) = Cmult (RtoC (mask01 (nbl_mask_1_0 k dx lam z))) (Cexpi (nbl_ph_1_0 k dx lam z)).
+Proof.
+  unfold nbl_re_1_0, nbl_im_1_0, nbl_mask_1_0, nbl_ph_1_0, mask01, Cmult, Cexpi, RtoC; cbn [fst snd].
+  match goal with |- context [if ?b then _ else _] => destruct b end; f_equal; ring.
+Qed.
+Lemma nbl_mask_even_1_0 k dx lam z : nbl_mask_1_0 k dx lam (- z) = nbl_mask_1_0 k dx lam z.
+Proof. unfold nbl_mask_1_0. sqrt_canon. reflexivity. Qed.
+Lemma nbl_laws_1_0 k dx lam z1 z2 :
+  nbl_mask_1_0 k dx lam z1 = true -> nbl_mask_1_0 k dx lam z2 = true -> nbl_mask_1_0 k dx lam (z1 + z2) = true ->
+   Cmult (nbl_re_1_0 k dx lam z1, nbl_im_1_0 k dx lam z1) (nbl_re_1_0 k dx lam z2, nbl_im_1_0 k dx lam z2) = (nbl_re_1_0 k dx lam (z1 + z2), nbl_im_1_0 k dx lam (z1 + z2)).
+Proof.
+  rewrite !nbl_pix_1_0. intros H1 H2 H3. rewrite H1, H2, H3. unfold mask01.
+  replace (Cmult (Cmult (RtoC 1) (Cexpi (nbl_ph_1_0 k dx lam z1))) (Cmult (RtoC 1) (Cexpi (nbl_ph_1_0 k dx lam z2))))
+    with (Cmult (RtoC 1) (Cmult (Cexpi (nbl_ph_1_0 k dx lam z1)) (Cexpi (nbl_ph_1_0 k dx lam z2)))) by ring.
+  f_equal. apply (kernel_compose (nbl_ph_1_0 k dx lam)), nbl_add_1_0.
+Qed.
 Lemma nbl_radnn_1_1 k dx lam z : 0 < lam -> 0 < dx -> lam * lam <= 2 * (dx * dx) -> 0 <= nbl_rad_1_1 k dx lam z.
 Proof.
   intros Hl Hd Hg. replace (nbl_rad_1_1 k dx lam z) with (1 - (lam * ((- (1 / 6)) / dx)) ^ 2 - (lam * ((0 / 1) / dx)) ^ 2) by (unfold nbl_rad_1_1; field; lra).
@@ -90,6 +170,22 @@ Proof.
   unfold nbl_re_1_1, nbl_im_1_1.
   match goal with |- context [if ?b then _ else _] => destruct b end;
   match goal with |- context [cos ?t] => pose proof (Cexpi_n2 t) as H; unfold n2, Cexpi in *; simpl in * end; nra.
+Qed.
+Lemma nbl_pix_1_1 k dx lam z : (nbl_re_1_1 k dx lam z, nbl_im_1_1 k dx lam z) = Cmult (RtoC (mask01 (nbl_mask_1_1 k dx lam z))) (Cexpi (nbl_ph_1_1 k dx lam z)).
+Proof.
+  unfold nbl_re_1_1, nbl_im_1_1, nbl_mask_1_1, nbl_ph_1_1, mask01, Cmult, Cexpi, RtoC; cbn [fst snd].
+  match goal with |- context [if ?b then _ else _] => destruct b end; f_equal; ring.
+Qed.
+Lemma nbl_mask_even_1_1 k dx lam z : nbl_mask_1_1 k dx lam (- z) = nbl_mask_1_1 k dx lam z.
+Proof. unfold nbl_mask_1_1. sqrt_canon. reflexivity. Qed.
+Lemma nbl_laws_1_1 k dx lam z1 z2 :
+  nbl_mask_1_1 k dx lam z1 = true -> nbl_mask_1_1 k dx lam z2 = true -> nbl_mask_1_1 k dx lam (z1 + z2) = true ->
+   Cmult (nbl_re_1_1 k dx lam z1, nbl_im_1_1 k dx lam z1) (nbl_re_1_1 k dx lam z2, nbl_im_1_1 k dx lam z2) = (nbl_re_1_1 k dx lam (z1 + z2), nbl_im_1_1 k dx lam (z1 + z2)).
+Proof.
+  rewrite !nbl_pix_1_1. intros H1 H2 H3. rewrite H1, H2, H3. unfold mask01.
+  replace (Cmult (Cmult (RtoC 1) (Cexpi (nbl_ph_1_1 k dx lam z1))) (Cmult (RtoC 1) (Cexpi (nbl_ph_1_1 k dx lam z2))))
+    with (Cmult (RtoC 1) (Cmult (Cexpi (nbl_ph_1_1 k dx lam z1)) (Cexpi (nbl_ph_1_1 k dx lam z2)))) by ring.
+  f_equal. apply (kernel_compose (nbl_ph_1_1 k dx lam)), nbl_add_1_1.
 Qed.
 Lemma nbl_radnn_1_2 k dx lam z : 0 < lam -> 0 < dx -> lam * lam <= 2 * (dx * dx) -> 0 <= nbl_rad_1_2 k dx lam z.
 Proof.
@@ -104,6 +200,22 @@ Proof.
   match goal with |- context [if ?b then _ else _] => destruct b end;
   match goal with |- context [cos ?t] => pose proof (Cexpi_n2 t) as H; unfold n2, Cexpi in *; simpl in * end; nra.
 Qed.
+Lemma nbl_pix_1_2 k dx lam z : (nbl_re_1_2 k dx lam z, nbl_im_1_2 k dx lam z) = Cmult (RtoC (mask01 (nbl_mask_1_2 k dx lam z))) (Cexpi (nbl_ph_1_2 k dx lam z)).
+Proof.
+  unfold nbl_re_1_2, nbl_im_1_2, nbl_mask_1_2, nbl_ph_1_2, mask01, Cmult, Cexpi, RtoC; cbn [fst snd].
+  match goal with |- context [if ?b then _ else _] => destruct b end; f_equal; ring.
+Qed.
+Lemma nbl_mask_even_1_2 k dx lam z : nbl_mask_1_2 k dx lam (- z) = nbl_mask_1_2 k dx lam z.
+Proof. unfold nbl_mask_1_2. sqrt_canon. reflexivity. Qed.
+Lemma nbl_laws_1_2 k dx lam z1 z2 :
+  nbl_mask_1_2 k dx lam z1 = true -> nbl_mask_1_2 k dx lam z2 = true -> nbl_mask_1_2 k dx lam (z1 + z2) = true ->
+   Cmult (nbl_re_1_2 k dx lam z1, nbl_im_1_2 k dx lam z1) (nbl_re_1_2 k dx lam z2, nbl_im_1_2 k dx lam z2) = (nbl_re_1_2 k dx lam (z1 + z2), nbl_im_1_2 k dx lam (z1 + z2)).
+Proof.
+  rewrite !nbl_pix_1_2. intros H1 H2 H3. rewrite H1, H2, H3. unfold mask01.
+  replace (Cmult (Cmult (RtoC 1) (Cexpi (nbl_ph_1_2 k dx lam z1))) (Cmult (RtoC 1) (Cexpi (nbl_ph_1_2 k dx lam z2))))
+    with (Cmult (RtoC 1) (Cmult (Cexpi (nbl_ph_1_2 k dx lam z1)) (Cexpi (nbl_ph_1_2 k dx lam z2)))) by ring.
+  f_equal. apply (kernel_compose (nbl_ph_1_2 k dx lam)), nbl_add_1_2.
+Qed.
 Lemma nbl_radnn_1_3 k dx lam z : 0 < lam -> 0 < dx -> lam * lam <= 2 * (dx * dx) -> 0 <= nbl_rad_1_3 k dx lam z.
 Proof.
   intros Hl Hd Hg. replace (nbl_rad_1_3 k dx lam z) with (1 - (lam * ((1 / 2) / dx)) ^ 2 - (lam * ((0 / 1) / dx)) ^ 2) by (unfold nbl_rad_1_3; field; lra).
@@ -116,6 +228,22 @@ Proof.
   unfold nbl_re_1_3, nbl_im_1_3.
   match goal with |- context [if ?b then _ else _] => destruct b end;
   match goal with |- context [cos ?t] => pose proof (Cexpi_n2 t) as H; unfold n2, Cexpi in *; simpl in * end; nra.
+Qed.
+Lemma nbl_pix_1_3 k dx lam z : (nbl_re_1_3 k dx lam z, nbl_im_1_3 k dx lam z) = Cmult (RtoC (mask01 (nbl_mask_1_3 k dx lam z))) (Cexpi (nbl_ph_1_3 k dx lam z)).
+Proof.
+  unfold nbl_re_1_3, nbl_im_1_3, nbl_mask_1_3, nbl_ph_1_3, mask01, Cmult, Cexpi, RtoC; cbn [fst snd].
+  match goal with |- context [if ?b then _ else _] => destruct b end; f_equal; ring.
+Qed.
+Lemma nbl_mask_even_1_3 k dx lam z : nbl_mask_1_3 k dx lam (- z) = nbl_mask_1_3 k dx lam z.
+Proof. unfold nbl_mask_1_3. sqrt_canon. reflexivity. Qed.
+Lemma nbl_laws_1_3 k dx lam z1 z2 :
+  nbl_mask_1_3 k dx lam z1 = true -> nbl_mask_1_3 k dx lam z2 = true -> nbl_mask_1_3 k dx lam (z1 + z2) = true ->
+   Cmult (nbl_re_1_3 k dx lam z1, nbl_im_1_3 k dx lam z1) (nbl_re_1_3 k dx lam z2, nbl_im_1_3 k dx lam z2) = (nbl_re_1_3 k dx lam (z1 + z2), nbl_im_1_3 k dx lam (z1 + z2)).
+Proof.
+  rewrite !nbl_pix_1_3. intros H1 H2 H3. rewrite H1, H2, H3. unfold mask01.
+  replace (Cmult (Cmult (RtoC 1) (Cexpi (nbl_ph_1_3 k dx lam z1))) (Cmult (RtoC 1) (Cexpi (nbl_ph_1_3 k dx lam z2))))
+    with (Cmult (RtoC 1) (Cmult (Cexpi (nbl_ph_1_3 k dx lam z1)) (Cexpi (nbl_ph_1_3 k dx lam z2)))) by ring.
+  f_equal. apply (kernel_compose (nbl_ph_1_3 k dx lam)), nbl_add_1_3.
 Qed.
 Lemma nbl_radnn_2_0 k dx lam z : 0 < lam -> 0 < dx -> lam * lam <= 2 * (dx * dx) -> 0 <= nbl_rad_2_0 k dx lam z.
 Proof.
@@ -130,6 +258,22 @@ Proof.
   match goal with |- context [if ?b then _ else _] => destruct b end;
   match goal with |- context [cos ?t] => pose proof (Cexpi_n2 t) as H; unfold n2, Cexpi in *; simpl in * end; nra.
 Qed.
+Lemma nbl_pix_2_0 k dx lam z : (nbl_re_2_0 k dx lam z, nbl_im_2_0 k dx lam z) = Cmult (RtoC (mask01 (nbl_mask_2_0 k dx lam z))) (Cexpi (nbl_ph_2_0 k dx lam z)).
+Proof.
+  unfold nbl_re_2_0, nbl_im_2_0, nbl_mask_2_0, nbl_ph_2_0, mask01, Cmult, Cexpi, RtoC; cbn [fst snd].
+  match goal with |- context [if ?b then _ else _] => destruct b end; f_equal; ring.
+Qed.
+Lemma nbl_mask_even_2_0 k dx lam z : nbl_mask_2_0 k dx lam (- z) = nbl_mask_2_0 k dx lam z.
+Proof. unfold nbl_mask_2_0. sqrt_canon. reflexivity. Qed.
+Lemma nbl_laws_2_0 k dx lam z1 z2 :
+  nbl_mask_2_0 k dx lam z1 = true -> nbl_mask_2_0 k dx lam z2 = true -> nbl_mask_2_0 k dx lam (z1 + z2) = true ->
+   Cmult (nbl_re_2_0 k dx lam z1, nbl_im_2_0 k dx lam z1) (nbl_re_2_0 k dx lam z2, nbl_im_2_0 k dx lam z2) = (nbl_re_2_0 k dx lam (z1 + z2), nbl_im_2_0 k dx lam (z1 + z2)).
+Proof.
+  rewrite !nbl_pix_2_0. intros H1 H2 H3. rewrite H1, H2, H3. unfold mask01.
+  replace (Cmult (Cmult (RtoC 1) (Cexpi (nbl_ph_2_0 k dx lam z1))) (Cmult (RtoC 1) (Cexpi (nbl_ph_2_0 k dx lam z2))))
+    with (Cmult (RtoC 1) (Cmult (Cexpi (nbl_ph_2_0 k dx lam z1)) (Cexpi (nbl_ph_2_0 k dx lam z2)))) by ring.
+  f_equal. apply (kernel_compose (nbl_ph_2_0 k dx lam)), nbl_add_2_0.
+Qed.
 Lemma nbl_radnn_2_1 k dx lam z : 0 < lam -> 0 < dx -> lam * lam <= 2 * (dx * dx) -> 0 <= nbl_rad_2_1 k dx lam z.
 Proof.
   intros Hl Hd Hg. replace (nbl_rad_2_1 k dx lam z) with (1 - (lam * ((- (1 / 6)) / dx)) ^ 2 - (lam * ((1 / 2) / dx)) ^ 2) by (unfold nbl_rad_2_1; field; lra).
@@ -142,6 +286,22 @@ Proof.
   unfold nbl_re_2_1, nbl_im_2_1.
   match goal with |- context [if ?b then _ else _] => destruct b end;
   match goal with |- context [cos ?t] => pose proof (Cexpi_n2 t) as H; unfold n2, Cexpi in *; simpl in * end; nra.
+Qed.
+Lemma nbl_pix_2_1 k dx lam z : (nbl_re_2_1 k dx lam z, nbl_im_2_1 k dx lam z) = Cmult (RtoC (mask01 (nbl_mask_2_1 k dx lam z))) (Cexpi (nbl_ph_2_1 k dx lam z)).
+Proof.
+  unfold nbl_re_2_1, nbl_im_2_1, nbl_mask_2_1, nbl_ph_2_1, mask01, Cmult, Cexpi, RtoC; cbn [fst snd].
+  match goal with |- context [if ?b then _ else _] => destruct b end; f_equal; ring.
+Qed.
+Lemma nbl_mask_even_2_1 k dx lam z : nbl_mask_2_1 k dx lam (- z) = nbl_mask_2_1 k dx lam z.
+Proof. unfold nbl_mask_2_1. sqrt_canon. reflexivity. Qed.
+Lemma nbl_laws_2_1 k dx lam z1 z2 :
+  nbl_mask_2_1 k dx lam z1 = true -> nbl_mask_2_1 k dx lam z2 = true -> nbl_mask_2_1 k dx lam (z1 + z2) = true ->
+   Cmult (nbl_re_2_1 k dx lam z1, nbl_im_2_1 k dx lam z1) (nbl_re_2_1 k dx lam z2, nbl_im_2_1 k dx lam z2) = (nbl_re_2_1 k dx lam (z1 + z2), nbl_im_2_1 k dx lam (z1 + z2)).
+Proof.
+  rewrite !nbl_pix_2_1. intros H1 H2 H3. rewrite H1, H2, H3. unfold mask01.
+  replace (Cmult (Cmult (RtoC 1) (Cexpi (nbl_ph_2_1 k dx lam z1))) (Cmult (RtoC 1) (Cexpi (nbl_ph_2_1 k dx lam z2))))
+    with (Cmult (RtoC 1) (Cmult (Cexpi (nbl_ph_2_1 k dx lam z1)) (Cexpi (nbl_ph_2_1 k dx lam z2)))) by ring.
+  f_equal. apply (kernel_compose (nbl_ph_2_1 k dx lam)), nbl_add_2_1.
 Qed.
 Lemma nbl_radnn_2_2 k dx lam z : 0 < lam -> 0 < dx -> lam * lam <= 2 * (dx * dx) -> 0 <= nbl_rad_2_2 k dx lam z.
 Proof.
@@ -156,6 +316,22 @@ Proof.
   match goal with |- context [if ?b then _ else _] => destruct b end;
   match goal with |- context [cos ?t] => pose proof (Cexpi_n2 t) as H; unfold n2, Cexpi in *; simpl in * end; nra.
 Qed.
+Lemma nbl_pix_2_2 k dx lam z : (nbl_re_2_2 k dx lam z, nbl_im_2_2 k dx lam z) = Cmult (RtoC (mask01 (nbl_mask_2_2 k dx lam z))) (Cexpi (nbl_ph_2_2 k dx lam z)).
+Proof.
+  unfold nbl_re_2_2, nbl_im_2_2, nbl_mask_2_2, nbl_ph_2_2, mask01, Cmult, Cexpi, RtoC; cbn [fst snd].
+  match goal with |- context [if ?b then _ else _] => destruct b end; f_equal; ring.
+Qed.
+Lemma nbl_mask_even_2_2 k dx lam z : nbl_mask_2_2 k dx lam (- z) = nbl_mask_2_2 k dx lam z.
+Proof. unfold nbl_mask_2_2. sqrt_canon. reflexivity. Qed.
+Lemma nbl_laws_2_2 k dx lam z1 z2 :
+  nbl_mask_2_2 k dx lam z1 = true -> nbl_mask_2_2 k dx lam z2 = true -> nbl_mask_2_2 k dx lam (z1 + z2) = true ->
+   Cmult (nbl_re_2_2 k dx lam z1, nbl_im_2_2 k dx lam z1) (nbl_re_2_2 k dx lam z2, nbl_im_2_2 k dx lam z2) = (nbl_re_2_2 k dx lam (z1 + z2), nbl_im_2_2 k dx lam (z1 + z2)).
+Proof.
+  rewrite !nbl_pix_2_2. intros H1 H2 H3. rewrite H1, H2, H3. unfold mask01.
+  replace (Cmult (Cmult (RtoC 1) (Cexpi (nbl_ph_2_2 k dx lam z1))) (Cmult (RtoC 1) (Cexpi (nbl_ph_2_2 k dx lam z2))))
+    with (Cmult (RtoC 1) (Cmult (Cexpi (nbl_ph_2_2 k dx lam z1)) (Cexpi (nbl_ph_2_2 k dx lam z2)))) by ring.
+  f_equal. apply (kernel_compose (nbl_ph_2_2 k dx lam)), nbl_add_2_2.
+Qed.
 Lemma nbl_radnn_2_3 k dx lam z : 0 < lam -> 0 < dx -> lam * lam <= 2 * (dx * dx) -> 0 <= nbl_rad_2_3 k dx lam z.
 Proof.
   intros Hl Hd Hg. replace (nbl_rad_2_3 k dx lam z) with (1 - (lam * ((1 / 2) / dx)) ^ 2 - (lam * ((1 / 2) / dx)) ^ 2) by (unfold nbl_rad_2_3; field; lra).
@@ -168,4 +344,20 @@ Proof.
   unfold nbl_re_2_3, nbl_im_2_3.
   match goal with |- context [if ?b then _ else _] => destruct b end;
   match goal with |- context [cos ?t] => pose proof (Cexpi_n2 t) as H; unfold n2, Cexpi in *; simpl in * end; nra.
+Qed.
+Lemma nbl_pix_2_3 k dx lam z : (nbl_re_2_3 k dx lam z, nbl_im_2_3 k dx lam z) = Cmult (RtoC (mask01 (nbl_mask_2_3 k dx lam z))) (Cexpi (nbl_ph_2_3 k dx lam z)).
+Proof.
+  unfold nbl_re_2_3, nbl_im_2_3, nbl_mask_2_3, nbl_ph_2_3, mask01, Cmult, Cexpi, RtoC; cbn [fst snd].
+  match goal with |- context [if ?b then _ else _] => destruct b end; f_equal; ring.
+Qed.
+Lemma nbl_mask_even_2_3 k dx lam z : nbl_mask_2_3 k dx lam (- z) = nbl_mask_2_3 k dx lam z.
+Proof. unfold nbl_mask_2_3. sqrt_canon. reflexivity. Qed.
+Lemma nbl_laws_2_3 k dx lam z1 z2 :
+  nbl_mask_2_3 k dx lam z1 = true -> nbl_mask_2_3 k dx lam z2 = true -> nbl_mask_2_3 k dx lam (z1 + z2) = true ->
+   Cmult (nbl_re_2_3 k dx lam z1, nbl_im_2_3 k dx lam z1) (nbl_re_2_3 k dx lam z2, nbl_im_2_3 k dx lam z2) = (nbl_re_2_3 k dx lam (z1 + z2), nbl_im_2_3 k dx lam (z1 + z2)).
+Proof.
+  rewrite !nbl_pix_2_3. intros H1 H2 H3. rewrite H1, H2, H3. unfold mask01.
+  replace (Cmult (Cmult (RtoC 1) (Cexpi (nbl_ph_2_3 k dx lam z1))) (Cmult (RtoC 1) (Cexpi (nbl_ph_2_3 k dx lam z2))))
+    with (Cmult (RtoC 1) (Cmult (Cexpi (nbl_ph_2_3 k dx lam z1)) (Cexpi (nbl_ph_2_3 k dx lam z2)))) by ring.
+  f_equal. apply (kernel_compose (nbl_ph_2_3 k dx lam)), nbl_add_2_3.
 Qed.
